@@ -339,6 +339,7 @@ func runC03(r *core.Run) {
 		}
 	})
 	c03ProgTraces(r)
+	c03RealCrashes(r)
 	c03Special(r)
 	c03Linear(r)
 	nativeFuzzResult(r)
@@ -535,4 +536,34 @@ func c03ProgTraces(r *core.Run) {
 		r.Count("program_traces_mutated", per)
 		_ = os.RemoveAll(bp.dir)
 	}
+}
+
+// c03RealCrashes: the output of every crash scenario of the repository's cmd/panic (built from the tree under
+// test, also with -race) goes through the whole pipeline with every option set, as is and corrupted.
+func c03RealCrashes(r *core.Run) {
+	names := realCrashNames()
+	r.Set("real_crash_scenarios", len(names))
+	if len(names) == 0 {
+		r.Broken("cmd/panic could not be built or run: no real crash output")
+		return
+	}
+	per := r.N(60, 1500)
+	core.Parallel(len(names), workers(), func(k int) {
+		in := realCrashes()[names[k]]
+		r.Mark("real_crashes", names[k])
+		for i := 0; i < per; i++ {
+			rr := core.NewRand(r.Seed, 35, uint64(k*100003+i))
+			data := in
+			if i > 2 {
+				data = gen.Mutate(rr, in, in, 1+rr.Intn(4), 1<<20)
+			}
+			opt := []string{"plain", "naming", "default"}[i%3]
+			key, what, _ := pipelineHTML(data, opt, i%8 == 0)
+			r.Eval(1)
+			if key != "" && key != "superlinear-root-guessing" {
+				r.Violation(key, "real crash output of cmd/panic "+names[k]+": "+what, "mut", &c03Case{Input: data, Opts: opt, Idx: i})
+				return
+			}
+		}
+	})
 }
